@@ -99,7 +99,7 @@ Proof.
             cbn [on_da_item]; unfold da, d'; rewrite content_last; exact Hin. }
         destruct (skipn (N.to_nat k) rem) as [|r0 rr] eqn:Es.
         -- injection H as <- <- <-. repeat split.
-           ++ apply mark_items_marks.
+           ++ exact (mark_items_marks da (map snd taken)).
            ++ exists [map snd taken]. reflexivity.
            ++ lia.
            ++ intros i Hi. apply (Hms i Hi).
@@ -107,7 +107,7 @@ Proof.
            injection H as <- <- <-.
            destruct (IH _ _ _ _ _ _ _ Er) as (A & (ext & B) & C & D).
            repeat split.
-           ++ rewrite forallb_app, A, mark_items_marks. reflexivity.
+           ++ rewrite forallb_app. apply andb_true_iff. split; [exact (mark_items_marks da (map snd taken)) | exact A].
            ++ exists ([map snd taken] ++ ext). rewrite B. unfold d'. rewrite <- app_assoc. reflexivity.
            ++ lia.
            ++ intros i Hi. apply in_app_or in Hi as [Hi|Hi]; [|apply D, Hi].
@@ -135,7 +135,7 @@ Theorem ids_with_error_ignored : forall f rem sc wm d,
   asubmit f rem (map strip_ids sc) wm d = asubmit f rem sc wm d.
 Proof.
   induction f as [|f IH]; intros rem sc wm d; [reflexivity|].
-  cbn [asubmit]. destruct sc as [|a sc]; [cbn [map hd tl]; rewrite <- (IH _ [] _ _) at 1; reflexivity|].
+  cbn [asubmit]. destruct sc as [|a sc]; [reflexivity|].
   cbn [map hd tl]. destruct a as [k|e ids kept]; cbn [strip_ids].
   - destruct (firstn (N.to_nat k) rem); [apply IH|].
     destruct (skipn (N.to_nat k) rem); [reflexivity|]. rewrite IH. reflexivity.
@@ -288,4 +288,338 @@ Proof.
   intros c b h k s. subst s. rewrite !arun_snoc. cbn [astep stop_start a_nd boot_with hm dm].
   rewrite !saved_is_loaded. cbn [fst snd].
   destruct (dying_fields (a_nd (arun c b h)) k) as (_ & A & B & _). rewrite A, B. repeat split.
+Qed.
+
+(* ---- C07 liveness on an aggregator, over histories without a process death --------------------------------- *)
+(* strictly increasing heights, all above [lo] *)
+Fixpoint incN (lo : N) (l : list N) : Prop :=
+  match l with [] => True | h :: r => lo < h /\ incN h r end.
+
+Lemma incN_weaken : forall l lo lo', lo' <= lo -> incN lo l -> incN lo' l.
+Proof. destruct l as [|h r]; intros lo lo' H Hi; [exact Hi|]. cbn in *. destruct Hi; split; [lia | assumption]. Qed.
+
+Lemma incN_all_gt : forall l lo h, incN lo l -> In h l -> lo < h.
+Proof.
+  induction l as [|x r IH]; intros lo h I Hin; [destruct Hin|]. cbn in I. destruct I as (A & B).
+  destruct Hin as [<-|Hin]; [exact A|]. pose proof (IH x h B Hin). lia.
+Qed.
+
+(* a non-empty prefix: its last height is above lo, bounds the prefix, and the rest lies above it *)
+Lemma incN_app : forall l1 l2 lo, l1 <> [] -> incN lo (l1 ++ l2) ->
+  lo < last l1 0 /\ (forall h, In h l1 -> h <= last l1 0) /\ incN (last l1 0) l2 /\ In (last l1 0) l1.
+Proof.
+  induction l1 as [|x r IH]; intros l2 lo Hne I; [congruence|].
+  cbn [app incN] in I. destruct I as (A & B).
+  destruct r as [|y r'].
+  - cbn [last]. repeat split; [exact A | intros h [<-|[]]; lia | exact B | left; reflexivity].
+  - assert (Hne' : y :: r' <> []) by discriminate.
+    destruct (IH l2 x Hne' B) as (C & D & E & F).
+    change (last (x :: y :: r') 0) with (last (y :: r') 0).
+    repeat split; [lia | | exact E | right; exact F].
+    intros h [<-|Hin]; [lia | apply D, Hin].
+Qed.
+
+Lemma last_map_fst : forall (l : list (N * blob)), last (map fst l) 0 = fst (last l (0, BJ)).
+Proof.
+  induction l as [|x r IH]; [reflexivity|]. destruct r as [|y r']; [reflexivity|].
+  change (last (map fst (x :: y :: r')) 0) with (last (map fst (y :: r')) 0).
+  change (last (x :: y :: r') (0, BJ)) with (last (y :: r') (0, BJ)). exact IH.
+Qed.
+
+(* the mark event a submitted blob gets *)
+Definition has_mark (ms : list item) (x : blob) : Prop :=
+  match x with
+  | BH id => exists da, In (IMarkH id da) ms
+  | BD id => exists da, In (IMarkD id da) ms
+  | BJ => True
+  end.
+
+Lemma has_mark_app_l ms ms' x : has_mark ms x -> has_mark (ms ++ ms') x.
+Proof. destruct x; cbn; try (intros (da & H); exists da; apply in_or_app; left; exact H); auto. Qed.
+Lemma has_mark_app_r ms ms' x : has_mark ms' x -> has_mark (ms ++ ms') x.
+Proof. destruct x; cbn; try (intros (da & H); exists da; apply in_or_app; right; exact H); auto. Qed.
+
+Lemma mark_items_has da : forall bl x, In x bl -> has_mark (mark_items da bl) x.
+Proof.
+  induction bl as [|y r IH]; intros x Hin; [destruct Hin|].
+  rewrite mark_items_cons. destruct Hin as [->|Hin]; [apply has_mark_app_l | apply has_mark_app_r, IH, Hin].
+  destruct x; cbn; try (exists da; left; reflexivity); exact I.
+Qed.
+
+(* submitToDA on a pending list with increasing heights above the watermark: the new watermark is the old one or
+   the height of a submitted item, and every item at or below it got its mark *)
+Lemma asubmit_covers : forall f rem sc wm d ms w dd,
+  incN wm (map fst rem) ->
+  asubmit f rem sc wm d = (ms, w, dd) ->
+  (w = wm \/ In w (map fst rem)) /\
+  (forall x, In x rem -> fst x <= w -> has_mark ms (snd x)).
+Proof.
+  induction f as [|f IH]; intros rem sc wm d ms w dd Hinc H; cbn [asubmit] in H.
+  - injection H as <- <- <-. split; [left; reflexivity|].
+    intros x Hx Hle. pose proof (incN_all_gt _ _ _ Hinc (in_map fst _ _ Hx)). lia.
+  - destruct (hd (AOk (N.of_nat (length rem))) sc) as [k|e ids kept].
+    + destruct (firstn (N.to_nat k) rem) as [|t0 tr] eqn:Et.
+      * exact (IH _ _ _ _ _ _ _ Hinc H).
+      * set (taken := t0 :: tr) in *.
+        assert (Hsplit : rem = taken ++ skipn (N.to_nat k) rem) by (rewrite <- Et; symmetry; apply firstn_skipn).
+        assert (Hne : map fst taken <> []) by discriminate.
+        pose proof Hinc as Hinc'. rewrite Hsplit, map_app in Hinc'.
+        destruct (incN_app _ _ _ Hne Hinc') as (A & B & C & D).
+        rewrite last_map_fst in A, B, C, D.
+        set (m := fst (last taken (0, BJ))) in *.
+        assert (Hmax : N.max wm m = m) by lia.
+        assert (Hm_in : In m (map fst rem)) by (rewrite Hsplit, map_app; apply in_or_app; left; exact D).
+        destruct (skipn (N.to_nat k) rem) as [|r0 rr] eqn:Es.
+        -- injection H as <- <- <-. rewrite Hmax. split; [right; exact Hm_in|].
+           intros x Hx _. rewrite Hsplit, app_nil_r in Hx.
+           exact (mark_items_has _ (map snd taken) (snd x) (in_map snd _ _ Hx)).
+        -- destruct (asubmit f (r0 :: rr) (tl sc) (N.max wm m) (d ++ [map snd taken])) as ((ms' & w') & dd') eqn:Er.
+           injection H as <- <- <-. rewrite Hmax in Er.
+           destruct (IH _ _ _ _ _ _ _ C Er) as (E & F).
+           split.
+           ++ right. destruct E as [->|E]; [exact Hm_in|]. rewrite Hsplit, map_app. apply in_or_app. right. exact E.
+           ++ intros x Hx Hle. rewrite Hsplit in Hx. apply in_app_or in Hx as [Hx|Hx].
+              ** apply has_mark_app_l. exact (mark_items_has _ (map snd taken) (snd x) (in_map snd _ _ Hx)).
+              ** apply has_mark_app_r, F; assumption.
+    + destruct e.
+      1,2,4: exact (IH _ _ _ _ _ _ _ Hinc H).
+      injection H as <- <- <-. split; [left; reflexivity|].
+      intros x Hx Hle. pose proof (incN_all_gt _ _ _ Hinc (in_map fst _ _ Hx)). lia.
+Qed.
+
+Lemma sub_covers rem sc wm d ms w dd :
+  incN wm (map fst rem) ->
+  sub rem sc wm d = (ms, w, dd) ->
+  (w = wm \/ In w (map fst rem)) /\
+  (forall x, In x rem -> fst x <= w -> has_mark ms (snd x)).
+Proof.
+  unfold sub. destruct rem as [|x r].
+  - intros _ H. injection H as <- <- <-. split; [left; reflexivity | intros x []].
+  - apply asubmit_covers.
+Qed.
+
+(* a mark event in a list of mark events is in the cache afterwards *)
+Lemma mark_in_run : forall ms s, forallb is_mark ms = true ->
+  (forall id da, In (IMarkH id da) ms -> mget (hm (run_from s ms)) id <> None) /\
+  (forall id da, In (IMarkD id da) ms -> mget (dm (run_from s ms)) id <> None).
+Proof.
+  induction ms as [|i ms IH]; intros s H; [split; intros id da []|].
+  cbn [forallb] in H. apply andb_true_iff in H as (Hi & H).
+  change (run_from s (i :: ms)) with (run_from (step s i) ms).
+  destruct (IH (step s i) H) as (A & B).
+  destruct (run_marks ms (step s i) H) as (_ & _ & C & D).
+  split; intros id da [->|Hin]; eauto.
+  - apply C. cbn [step hm mget]. rewrite N.eqb_refl. discriminate.
+  - apply D. cbn [step dm mget]. rewrite N.eqb_refl. discriminate.
+Qed.
+
+(* the pending lists *)
+Lemma with_heights_nth : forall bs n j x, nth_error bs j = Some x -> nth_error (with_heights n bs) j = Some (n + N.of_nat j, x).
+Proof.
+  induction bs as [|b r IH]; intros n j x H; [destruct j; discriminate|].
+  destruct j as [|j]; cbn in *.
+  - injection H as ->. f_equal. f_equal. lia.
+  - rewrite (IH (n + 1) j x H). f_equal. f_equal. lia.
+Qed.
+
+Lemma with_heights_in : forall bs n h x, In (h, x) (with_heights n bs) ->
+  exists j, nth_error bs j = Some x /\ h = n + N.of_nat j.
+Proof.
+  induction bs as [|b r IH]; intros n h x H; [destruct H|].
+  cbn [with_heights] in H. destruct H as [E|H].
+  - injection E as <- <-. exists 0%nat. split; [reflexivity | cbn; lia].
+  - destruct (IH _ _ _ H) as (j & A & B). exists (S j). split; [exact A | lia].
+Qed.
+
+Lemma with_heights_inc : forall bs n lo, lo < n -> incN lo (map fst (with_heights n bs)).
+Proof.
+  induction bs as [|b r IH]; intros n lo H; [exact I|]. cbn. split; [exact H | apply IH; lia].
+Qed.
+
+Lemma incN_filter (f : N * blk -> bool) : forall l lo, incN lo (map fst l) -> incN lo (map fst (filter f l)).
+Proof.
+  induction l as [|x r IH]; intros lo H; [exact I|]. cbn [map incN] in H. destruct H as (A & B).
+  cbn [filter]. destruct (f x).
+  - cbn [map incN]. split; [exact A | apply IH, B].
+  - apply (incN_weaken _ (fst x)); [lia | apply IH, B].
+Qed.
+
+Lemma pending_h_fst s : map fst (pending_h s) = map fst (pending (a_nd s) (a_wh s)).
+Proof. unfold pending_h. rewrite map_map. reflexivity. Qed.
+Lemma pending_d_fst s :
+  map fst (pending_d s) = map fst (filter (fun p => negb (bempty (snd p))) (pending (a_nd s) (a_wd s))).
+Proof. unfold pending_d. rewrite map_map. reflexivity. Qed.
+
+(* the block of height base+j+1 above the watermark is in the pending range *)
+Lemma pending_has nd wm j x :
+  base nd <= wm -> nth_error (chain nd) j = Some x -> wm < base nd + N.of_nat j + 1 ->
+  In (base nd + N.of_nat j + 1, x) (pending nd wm).
+Proof.
+  intros Hb Hx Hgt. unfold pending.
+  set (k := N.to_nat (wm - base nd)).
+  assert (Hj : nth_error (skipn k (chain nd)) (j - k) = Some x).
+  { rewrite nth_error_skipn'. replace (k + (j - k))%nat with j by lia. exact Hx. }
+  pose proof (with_heights_nth _ (wm + 1) _ _ Hj) as Hn.
+  replace (wm + 1 + N.of_nat (j - k)) with (base nd + N.of_nat j + 1) in Hn by lia.
+  eapply nth_error_In, Hn.
+Qed.
+
+Lemma pending_bound nd wm h x : base nd <= wm -> In (h, x) (pending nd wm) -> h <= sheight nd.
+Proof.
+  intros Hb H. unfold pending in H. apply with_heights_in in H as (j & A & ->).
+  assert (Hl : (j < length (skipn (N.to_nat (wm - base nd)) (chain nd)))%nat) by (apply nth_error_Some; congruence).
+  rewrite skipn_length in Hl. unfold sheight. lia.
+Qed.
+
+Record LInv (s : anode) : Prop := {
+  l_wh : base (a_nd s) <= a_wh s <= sheight (a_nd s);
+  l_wd : base (a_nd s) <= a_wd s <= sheight (a_nd s);
+  (* every block at or below the header watermark has its header mark in the cache of this process *)
+  l_hm : forall j x, nth_error (chain (a_nd s)) j = Some x -> base (a_nd s) + N.of_nat j + 1 <= a_wh s ->
+           mget (hm (a_nd s)) (bh x) <> None;
+  (* every non-empty block at or below the data watermark has its data mark *)
+  l_dm : forall j x, nth_error (chain (a_nd s)) j = Some x -> bempty x = false ->
+           base (a_nd s) + N.of_nat j + 1 <= a_wd s -> mget (dm (a_nd s)) (bd x) <> None
+}.
+
+Lemma ainit_linv c b : LInv (ainit c b).
+Proof.
+  constructor; cbn [ainit a_nd a_wh a_wd init base chain].
+  - unfold sheight; cbn; lia.
+  - unfold sheight; cbn; lia.
+  - intros j x H; destruct j; discriminate H.
+  - intros j x H; destruct j; discriminate H.
+Qed.
+
+(* the chain grows, the watermarks stay, no mark is lost *)
+Lemma linv_keep s s' ext :
+  LInv s -> base (a_nd s') = base (a_nd s) -> chain (a_nd s') = chain (a_nd s) ++ ext ->
+  a_wh s' = a_wh s -> a_wd s' = a_wd s ->
+  (forall id, mget (hm (a_nd s)) id <> None -> mget (hm (a_nd s')) id <> None) ->
+  (forall id, mget (dm (a_nd s)) id <> None -> mget (dm (a_nd s')) id <> None) ->
+  LInv s'.
+Proof.
+  intros [Hwh Hwd Hh Hd] Eb Ec Ewh Ewd Kh Kd.
+  assert (Hs : sheight (a_nd s) <= sheight (a_nd s')).
+  { unfold sheight. rewrite Eb, Ec, app_length. lia. }
+  assert (Hnth : forall j x, nth_error (chain (a_nd s')) j = Some x ->
+            base (a_nd s) + N.of_nat j + 1 <= sheight (a_nd s) -> nth_error (chain (a_nd s)) j = Some x).
+  { intros j x Hx Hle. rewrite Ec in Hx. unfold sheight in Hle. rewrite nth_error_app1 in Hx; [exact Hx | lia]. }
+  constructor; rewrite ?Eb, ?Ewh, ?Ewd.
+  - lia.
+  - lia.
+  - intros j x Hx Hle. apply Kh, (Hh j x); [apply Hnth; [exact Hx | lia] | exact Hle].
+  - intros j x Hx He Hle. apply Kd, (Hd j x); [apply Hnth; [exact Hx | lia] | exact He | exact Hle].
+Qed.
+
+Lemma astep_linv s i : LInv s -> is_acrash i = false -> LInv (astep s i).
+Proof.
+  intros L Hc.
+  destruct i as [b|sc|sc| |k|k|]; try discriminate Hc.
+  - (* AAppend *)
+    destruct (step_keeps (a_nd s) (IAppend b) eq_refl) as (A & B & C & D).
+    apply (linv_keep s _ [b] L); cbn [astep aitems with_nd a_nd a_wh a_wd run_from fold_left]; auto.
+  - (* ASubH *)
+    cbn [astep]. destruct (sub (pending_h s) sc (a_wh s) (a_dal s)) as ((ms & w) & d) eqn:E.
+    destruct (sub_spec _ _ _ _ _ _ _ E) as (Hm & _ & Hle & _).
+    destruct L as [Hwh Hwd Hh Hd].
+    assert (Hinc : incN (a_wh s) (map fst (pending_h s))).
+    { rewrite pending_h_fst. unfold pending. apply with_heights_inc. lia. }
+    destruct (sub_covers _ _ _ _ _ _ _ Hinc E) as (Hw & Hcov).
+    destruct (run_marks ms (a_nd s) Hm) as (Ec & Eb & Kh & Kd).
+    destruct (mark_in_run ms (a_nd s) Hm) as (Mh & _).
+    assert (Hwle : w <= sheight (a_nd s)).
+    { destruct Hw as [->|Hw]; [lia|]. rewrite pending_h_fst in Hw. apply in_map_iff in Hw as ((h & x) & <- & Hin).
+      apply (pending_bound _ _ _ _ (proj1 Hwh) Hin). }
+    constructor; cbn [a_nd a_wh a_wd]; unfold sheight in *; rewrite ?Ec, ?Eb.
+    + lia.
+    + exact Hwd.
+    + intros j x Hx Hjw.
+      destruct (N.le_gt_cases (base (a_nd s) + N.of_nat j + 1) (a_wh s)) as [Hold|Hnew].
+      * apply Kh, (Hh j x Hx Hold).
+      * pose proof (pending_has (a_nd s) (a_wh s) j x (proj1 Hwh) Hx Hnew) as Hin.
+        assert (Hin' : In (base (a_nd s) + N.of_nat j + 1, BH (bh x)) (pending_h s)).
+        { unfold pending_h. apply in_map_iff. exists (base (a_nd s) + N.of_nat j + 1, x). split; [reflexivity | exact Hin]. }
+        destruct (Hcov _ Hin' Hjw) as (da & Hda). apply (Mh _ _ Hda).
+    + intros j x Hx He Hjw. apply Kd, (Hd j x Hx He Hjw).
+  - (* ASubD *)
+    cbn [astep]. destruct (sub (pending_d s) sc (a_wd s) (a_dal s)) as ((ms & w) & d) eqn:E.
+    destruct (sub_spec _ _ _ _ _ _ _ E) as (Hm & _ & Hle & _).
+    destruct L as [Hwh Hwd Hh Hd].
+    assert (Hinc : incN (a_wd s) (map fst (pending_d s))).
+    { rewrite pending_d_fst. apply incN_filter. unfold pending. apply with_heights_inc. lia. }
+    destruct (sub_covers _ _ _ _ _ _ _ Hinc E) as (Hw & Hcov).
+    destruct (run_marks ms (a_nd s) Hm) as (Ec & Eb & Kh & Kd).
+    destruct (mark_in_run ms (a_nd s) Hm) as (_ & Md).
+    assert (Hwle : w <= sheight (a_nd s)).
+    { destruct Hw as [->|Hw]; [lia|]. rewrite pending_d_fst in Hw. apply in_map_iff in Hw as ((h & x) & <- & Hin).
+      apply filter_In in Hin as (Hin & _). apply (pending_bound _ _ _ _ (proj1 Hwd) Hin). }
+    constructor; cbn [a_nd a_wh a_wd]; unfold sheight in *; rewrite ?Ec, ?Eb.
+    + exact Hwh.
+    + lia.
+    + intros j x Hx Hjw. apply Kh, (Hh j x Hx Hjw).
+    + intros j x Hx He Hjw.
+      destruct (N.le_gt_cases (base (a_nd s) + N.of_nat j + 1) (a_wd s)) as [Hold|Hnew].
+      * apply Kd, (Hd j x Hx He Hold).
+      * pose proof (pending_has (a_nd s) (a_wd s) j x (proj1 Hwd) Hx Hnew) as Hin.
+        assert (Hin' : In (base (a_nd s) + N.of_nat j + 1, BD (bd x)) (pending_d s)).
+        { unfold pending_d. apply in_map_iff. exists (base (a_nd s) + N.of_nat j + 1, x). split; [reflexivity|].
+          apply filter_In. split; [exact Hin | cbn [snd]; rewrite He; reflexivity]. }
+        destruct (Hcov _ Hin' Hjw) as (da & Hda). apply (Md _ _ Hda).
+  - (* AInclude *)
+    destruct (step_keeps (a_nd s) IInclude eq_refl) as (A & B & C & D).
+    apply (linv_keep s _ [] L); cbn [astep aitems with_nd a_nd a_wh a_wd run_from fold_left]; auto.
+  - (* AFault: the marks of the dying process are saved and loaded again *)
+    destruct (dying_fields (a_nd s) k) as (A & B & C & _ & _ & F).
+    apply (linv_keep s _ [] L); cbn [astep stop_start a_nd a_wh a_wd boot_with base chain hm dm];
+      rewrite ?saved_is_loaded; cbn [fst snd]; rewrite ?A, ?B, ?C, ?F, ?app_nil_r; auto.
+  - (* ARestart *)
+    apply (linv_keep s _ [] L); cbn [astep stop_start a_nd a_wh a_wd boot_with base chain hm dm];
+      rewrite ?saved_is_loaded; cbn [fst snd]; rewrite ?app_nil_r; auto.
+Qed.
+
+Lemma arun_from_linv : forall h s, LInv s -> no_crash h = true -> LInv (arun_from s h).
+Proof.
+  induction h as [|i h IH]; intros s L H; [exact L|].
+  unfold no_crash in H. cbn [forallb] in H. apply andb_true_iff in H as (Hi & H).
+  unfold arun_from in *. cbn [fold_left]. apply IH; [|exact H].
+  apply astep_linv; [exact L | destruct (is_acrash i); [discriminate Hi | reflexivity]].
+Qed.
+
+Lemma in_firstn_nth {A} : forall (l : list A) k x, In x (firstn k l) -> exists j, (j < k)%nat /\ nth_error l j = Some x.
+Proof.
+  induction l as [|a l IH]; intros k x H; [rewrite firstn_nil in H; destruct H|].
+  destruct k; [destruct H|]. cbn [firstn] in H. destruct H as [->|H].
+  - exists 0%nat. split; [lia | reflexivity].
+  - destruct (IH k x H) as (j & A1 & A2). exists (S j). split; [lia | exact A2].
+Qed.
+
+(* For EVERY history of an aggregator without a process death — any interleaving of blocks produced, submission
+   iterations under any answers of the DA layer, includer runs, failing effects, clean stops and starts — and EVERY
+   configuration of its directories: once the header watermark has reached n (the DA layer accepted the headers up
+   to n) and every non-empty block up to n lies at or below the data watermark, one includer run reports at least n. *)
+Theorem aggregator_eventually : forall c b h n, let s := arun c b h in
+  no_crash h = true ->
+  n <= a_wh s ->
+  data_submitted s n = true ->
+  n <= rep (a_nd (arun c b (h ++ [AInclude]))).
+Proof.
+  intros c b h n s Hnc Hn Hd. subst s.
+  rewrite arun_snoc. cbn [astep aitems with_nd a_nd run_from fold_left]. unfold rep.
+  set (s := arun c b h) in *.
+  assert (L : LInv s) by (apply arun_from_linv; [apply ainit_linv | exact Hnc]).
+  destruct (run_inv b (atrace (ainit c b) h)) as (Q & Hb). rewrite <- aggregator_refines in Q, Hb. fold s in Q, Hb.
+  destruct L as [Hwh Hwd Hh Hdm].
+  apply (include_reaches _ _ n Q); [lia|].
+  intros x Hx. apply in_firstn_nth in Hx as (j & Hj & Hx).
+  assert (Hle : base (a_nd s) + N.of_nat j + 1 <= n) by lia.
+  unfold inclb. pose proof (Hh j x Hx ltac:(lia)) as Mh.
+  destruct (mget (hm (a_nd s)) (bh x)); [|congruence].
+  destruct (bempty x) eqn:He; [reflexivity|]. cbn [orb].
+  unfold data_submitted in Hd. rewrite forallb_forall in Hd.
+  pose proof (with_heights_nth _ (base (a_nd s) + 1) _ _ Hx) as Hn'.
+  pose proof (nth_error_in_firstn _ _ (N.to_nat (n - base (a_nd s))) _ Hn' Hj) as Hin.
+  specialize (Hd _ Hin). cbn [fst snd] in Hd. rewrite He in Hd. cbn [orb] in Hd.
+  pose proof (Hdm j x Hx He ltac:(lia)) as Md.
+  destruct (mget (dm (a_nd s)) (bd x)); [reflexivity | congruence].
 Qed.
